@@ -9,13 +9,23 @@ pub const STEP_BOUND_MSG: &str = "STEP-BOUND exceeded";
 /// Drain an iterator, but never beyond `bound` steps: C01 demands a number of
 /// steps bounded by the input length. Exceeding it is raised as a panic with
 /// a recognisable message (inside `call`, so it is attributed to the crate).
-pub fn drain<I: Iterator>(it: I, bound: usize) -> Vec<I::Item> {
+///
+/// After the iterator has reported exhaustion it is polled three more times: "all call
+/// sequences" includes `next()` after the end, which must return normally as well. Items a
+/// non-fused iterator yields then are kept (and count towards the bound).
+pub fn drain<I: Iterator>(mut it: I, bound: usize) -> Vec<I::Item> {
     let mut v = Vec::new();
-    for x in it {
-        if v.len() >= bound {
-            panic!("{STEP_BOUND_MSG}: iterator yielded more than {bound} items");
+    let mut ends = 0;
+    while ends < 4 {
+        match it.next() {
+            Some(x) => {
+                if v.len() >= bound {
+                    panic!("{STEP_BOUND_MSG}: iterator yielded more than {bound} items");
+                }
+                v.push(x);
+            }
+            None => ends += 1,
         }
-        v.push(x);
     }
     v
 }
